@@ -82,6 +82,115 @@ pub(crate) mod verif_data {
     get_key_array_harness!(k_c11_get_key_array3, 3);
 
     // =====================================================================================
+    // C11: split_with_escape as a function - "a dot-separated path (a backslash makes the next character
+    // literal)". The input is an ABSTRACT string (Chars by contract) of up to 4 characters, each a symbolic
+    // choice among 'a', 'b', '.', '\\'. Inputs with empty segments (leading / doubled / trailing unescaped dot)
+    // and a dangling final backslash are excluded: the statement does not say what they mean.
+    // `String::push` for these ASCII characters is replaced by a byte push (its contract for ASCII).
+    // =====================================================================================
+    pub(crate) fn ascii_push_stub(s: &mut String, ch: char) {
+        assert!((ch as u32) < 128, "harness characters are ASCII");
+        unsafe { s.as_mut_vec().push(ch as u8) };
+    }
+    /// one concrete text (`code` in base 4 picks the characters): run the real function, compare with the spec
+    fn check_split(l: usize, code: usize) {
+        use crate::verif_support::chars_contract as cc;
+        const ALPHA: [char; 4] = ['a', 'b', '.', '\\'];
+        let mut text = [0u8; 4];
+        let mut c = code;
+        let mut i = 0;
+        while i < l {
+            unsafe { cc::CH_TEXT[i] = ALPHA[c % 4] };
+            text[i] = ALPHA[c % 4] as u8;
+            c /= 4;
+            i += 1;
+        }
+        unsafe { cc::CH_USE_TEXT = true };
+        cc::reset(l);
+        // spec: segments split at unescaped dots, the character after a backslash is literal
+        let mut seg = [[0u8; 4]; 4];
+        let mut seg_len = [0usize; 4];
+        let mut n = 0;
+        let mut esc = false;
+        let mut well_formed = true;
+        let mut i = 0;
+        while i < l {
+            let ch = text[i];
+            if esc {
+                seg[n][seg_len[n]] = ch;
+                seg_len[n] += 1;
+                esc = false;
+            } else if ch == b'\\' {
+                esc = true;
+            } else if ch == b'.' {
+                if seg_len[n] == 0 {
+                    well_formed = false;
+                }
+                n += 1;
+            } else {
+                seg[n][seg_len[n]] = ch;
+                seg_len[n] += 1;
+            }
+            i += 1;
+        }
+        if !(well_formed && !esc && (l == 0 || seg_len[n] > 0)) {
+            return; // empty segments / dangling backslash: excluded (the statement is silent)
+        }
+        let count = if l == 0 { 0 } else { n + 1 };
+        let r = MD::new(split_with_escape("????", '.'));
+        assert!(r.len() == count, "split_with_escape: wrong number of path segments (split at unescaped dots only)");
+        let mut k = 0;
+        while k < count {
+            let s = r[k].as_bytes();
+            assert!(s.len() == seg_len[k], "split_with_escape: wrong segment length (an escaped character is kept, its backslash dropped)");
+            let mut j = 0;
+            while j < seg_len[k] {
+                assert!(s[j] == seg[k][j], "split_with_escape: wrong segment text");
+                j += 1;
+            }
+            k += 1;
+        }
+    }
+    /// every text of exactly `l` characters over the alphabet, one after the other (all concrete: CBMC's symbolic
+    /// execution of a symbolic text makes String growth a symbolic-size realloc, which the solver does not survive)
+    pub(crate) fn body_split(l: usize) {
+        let mut total = 1;
+        let mut i = 0;
+        while i < l {
+            total *= 4;
+            i += 1;
+        }
+        let mut code = 0;
+        while code < total {
+            check_split(l, code);
+            code += 1;
+        }
+        kani::cover!(true, "all texts checked");
+    }
+    macro_rules! split_harness {
+        ($name:ident, $l:expr) => {
+            #[cfg_attr(kani, kani::proof)]
+            #[cfg_attr(kani, kani::stub(<std::str::Chars<'_> as std::iter::Iterator>::next, crate::verif_support::chars_contract::CharsContract::next))]
+            #[cfg_attr(kani, kani::stub(std::string::String::push, ascii_push_stub))]
+            pub(crate) fn $name() {
+                body_split($l);
+            }
+        };
+    }
+    //@ob name=C11.split.len0 harness=k_c11_split_0 props=C11,C01 strength=bounded bound="the empty path" fns=op::data::split_with_escape stubs=2 timeout=300
+    //@ desc="split_with_escape of the empty string has no segments"
+    split_harness!(k_c11_split_0, 0);
+    //@ob name=C11.split.len2 harness=k_c11_split_2 props=C11,C01 strength=bounded bound="every 2-character path over {a b . \\} without empty segments (abstract string: Chars by contract)" fns=op::data::split_with_escape stubs=2 timeout=300
+    //@ desc="split_with_escape splits at unescaped dots only; a backslash makes the next character literal (and is dropped)"
+    split_harness!(k_c11_split_2, 2);
+    //@ob name=C11.split.len3 harness=k_c11_split_3 props=C11,C01 strength=bounded bound="every 3-character path over {a b . \\} without empty segments" fns=op::data::split_with_escape stubs=2 timeout=400
+    //@ desc="split_with_escape on all 3-character paths (a.b, a\\.b -> one segment, \\\\a ...)"
+    split_harness!(k_c11_split_3, 3);
+    //@ob name=C11.split.len4 harness=k_c11_split_4 props=C11,C01 tier=thorough strength=bounded bound="every 4-character path over {a b . \\} without empty segments" fns=op::data::split_with_escape stubs=2 timeout=600
+    //@ desc="split_with_escape on all 4-character paths"
+    split_harness!(k_c11_split_4, 4);
+
+    // =====================================================================================
     // C11 / C12 / C04: var, missing, missing_some with the lookup `get_key` by contract.
     // Abstract presence function over the key alphabet {"a","b","c", any integer}: PRESENT[i] says
     // whether the lookup finds something, PLAN_VAL[i] what it finds. Consistent for equal keys.
